@@ -317,7 +317,7 @@ func fabricate(req kmsg.Request, code int16) kmsg.Response {
 		}
 		return resp
 	}
-	return nil
+	return fabricateMore(req, code)
 }
 
 // rewrite changes a genuine response after the broker processed the request
